@@ -18,6 +18,18 @@ pub enum StdinSpec {
     Bytes(Vec<u8>),
 }
 
+/// A pseudo-terminal for the child. `typed` is what the "user" types (each line ends with \n).
+#[derive(Clone, Debug, Serialize, Deserialize)]
+pub struct PtySpec {
+    pub typed: Vec<u8>,
+    /// make the pty the child's controlling terminal (new session + TIOCSCTTY), so /dev/tty works
+    pub controlling: bool,
+    /// the child's stdin is the terminal (otherwise stdin follows StdinSpec)
+    pub stdin_is_tty: bool,
+    /// the child's stdout is the terminal (otherwise the usual pipe / file)
+    pub stdout_is_tty: bool,
+}
+
 #[derive(Clone, Debug, Serialize, Deserialize)]
 pub struct Cmd {
     pub args: Vec<Vec<u8>>,
@@ -31,6 +43,9 @@ pub struct Cmd {
     /// stdin is this file or directory (opened read-only) instead of StdinSpec
     #[serde(default)]
     pub stdin_path: Option<String>,
+    /// attach a pseudo-terminal (interactive wiring): see PtySpec
+    #[serde(default)]
+    pub pty: Option<PtySpec>,
     /// run the child under RLIMIT_FSIZE = this many bytes with SIGXFSZ ignored: a write crossing the limit is
     /// short, the next one fails with EFBIG (like a quota or a nearly full disk)
     #[serde(default)]
@@ -39,7 +54,7 @@ pub struct Cmd {
 
 impl Cmd {
     pub fn new(args: &[&str]) -> Cmd {
-        Cmd { args: args.iter().map(|a| a.as_bytes().to_vec()).collect(), env: vec![], stdin: StdinSpec::Null, stdout_file: None, stdout_closed_pipe: false, stdin_path: None, fsize_limit: None }
+        Cmd { args: args.iter().map(|a| a.as_bytes().to_vec()).collect(), env: vec![], stdin: StdinSpec::Null, stdout_file: None, stdout_closed_pipe: false, stdin_path: None, fsize_limit: None, pty: None }
     }
     pub fn env(mut self, k: &str, v: &str) -> Cmd {
         self.env.push((k.to_string(), v.to_string()));
@@ -63,6 +78,8 @@ pub struct Out {
     pub stdout: Vec<u8>,
     pub stderr: String,
     pub wall_ms: u128,
+    /// everything the child (and the terminal's echo) wrote to the pseudo-terminal, if one was attached
+    pub tty_output: Vec<u8>,
 }
 
 impl Out {
@@ -105,6 +122,9 @@ impl Out {
 }
 
 static DIR_CTR: AtomicU64 = AtomicU64::new(0);
+thread_local! {
+    static PTY_SLAVE_TO_CLOSE: std::cell::Cell<i32> = const { std::cell::Cell::new(-1) };
+}
 
 /// A fresh scratch directory under /verif/work, removed on drop.
 pub struct Scratch(pub PathBuf);
@@ -156,19 +176,25 @@ pub fn run_limit(cmd: &Cmd, cwd: &Path, limit: Duration) -> Out {
         c.env(k, v);
     }
     c.current_dir(cwd);
-    match &cmd.stdin {
-        StdinSpec::Null => {
-            c.stdin(Stdio::null());
-        }
-        StdinSpec::Bytes(_) => {
-            c.stdin(Stdio::piped());
+    let pty_stdin = cmd.pty.as_ref().map(|p| p.stdin_is_tty).unwrap_or(false);
+    let pty_stdout = cmd.pty.as_ref().map(|p| p.stdout_is_tty).unwrap_or(false);
+    if !pty_stdin {
+        match &cmd.stdin {
+            StdinSpec::Null => {
+                c.stdin(Stdio::null());
+            }
+            StdinSpec::Bytes(_) => {
+                c.stdin(Stdio::piped());
+            }
         }
     }
     if let Some(pth) = &cmd.stdin_path {
         let fh = std::fs::File::open(cwd.join(pth)).expect("stdin path");
         c.stdin(fh);
     }
-    if cmd.stdout_closed_pipe {
+    if pty_stdout {
+        // set below together with the pty
+    } else if cmd.stdout_closed_pipe {
         use std::os::unix::io::FromRawFd;
         let mut fds = [0i32; 2];
         unsafe {
@@ -188,6 +214,40 @@ pub fn run_limit(cmd: &Cmd, cwd: &Path, limit: Duration) -> Out {
         }
     }
     c.stderr(Stdio::piped());
+    let mut pty_master: Option<std::fs::File> = None;
+    if let Some(ps) = &cmd.pty {
+        use std::os::unix::io::FromRawFd;
+        use std::os::unix::process::CommandExt;
+        let (mut m, mut sl) = (0i32, 0i32);
+        // glibc opens the slave with O_NOCTTY, so kv (a session leader without a terminal) does not acquire it
+        if unsafe { libc::openpty(&mut m, &mut sl, std::ptr::null_mut(), std::ptr::null(), std::ptr::null()) } != 0 {
+            crate::report::machinery("openpty failed");
+        }
+        unsafe {
+            libc::fcntl(m, libc::F_SETFD, libc::FD_CLOEXEC);
+        }
+        if ps.stdin_is_tty {
+            c.stdin(unsafe { Stdio::from_raw_fd(libc::dup(sl)) });
+        }
+        if ps.stdout_is_tty {
+            c.stdout(unsafe { Stdio::from_raw_fd(libc::dup(sl)) });
+        }
+        let controlling = ps.controlling;
+        let slave = sl;
+        unsafe {
+            c.pre_exec(move || {
+                if controlling {
+                    libc::setsid();
+                    libc::ioctl(slave, libc::TIOCSCTTY as _, 0);
+                }
+                libc::close(slave);
+                Ok(())
+            });
+        }
+        pty_master = Some(unsafe { std::fs::File::from_raw_fd(m) });
+        // the parent's copy of the slave is closed after spawn (below)
+        PTY_SLAVE_TO_CLOSE.with(|c| c.set(sl));
+    }
     if let Some(lim) = cmd.fsize_limit {
         use std::os::unix::process::CommandExt;
         unsafe {
@@ -206,7 +266,38 @@ pub fn run_limit(cmd: &Cmd, cwd: &Path, limit: Duration) -> Out {
         Ok(ch) => ch,
         Err(e) => crate::report::machinery(&format!("cannot spawn {}: {}", KESTREL, e)),
     };
-    let stdin_thread = if let StdinSpec::Bytes(b) = &cmd.stdin {
+    // release the parent's copies of the child's stdio descriptors (pty slave duplicates in particular:
+    // the master only reports end-of-file once every slave descriptor is closed)
+    drop(c);
+    let mut pty_threads = vec![];
+    let pty_out: std::sync::Arc<std::sync::Mutex<Vec<u8>>> = Default::default();
+    if let Some(master) = pty_master {
+        let typed = cmd.pty.as_ref().unwrap().typed.clone();
+        let mut w = master.try_clone().expect("dup pty master");
+        pty_threads.push(std::thread::spawn(move || {
+            // type line by line with a short pause (the program switches echo off before each prompt)
+            for line in typed.split_inclusive(|&b| b == b'\n') {
+                std::thread::sleep(Duration::from_millis(25));
+                if w.write_all(line).is_err() {
+                    break;
+                }
+            }
+        }));
+        let po = pty_out.clone();
+        let mut rd = master;
+        pty_threads.push(std::thread::spawn(move || {
+            let mut buf = [0u8; 4096];
+            loop {
+                match rd.read(&mut buf) {
+                    Ok(0) | Err(_) => break, // EIO when the slave side is closed
+                    Ok(n) => po.lock().unwrap().extend_from_slice(&buf[..n]),
+                }
+            }
+        }));
+    }
+    let stdin_thread = if pty_stdin {
+        None
+    } else if let StdinSpec::Bytes(b) = &cmd.stdin {
         let mut si = child.stdin.take().unwrap();
         let b = b.clone();
         Some(std::thread::spawn(move || {
@@ -247,9 +338,22 @@ pub fn run_limit(cmd: &Cmd, cwd: &Path, limit: Duration) -> Out {
     if let Some(t) = stdin_thread {
         let _ = t.join();
     }
+    // the parent kept its copy of the slave open while the child ran (like the shell that owns a real
+    // terminal: otherwise a child that does not use the tty as stdin/stdout would get SIGHUP); closing it now
+    // lets the master reader see end-of-file
+    let sl = PTY_SLAVE_TO_CLOSE.with(|c| c.replace(-1));
+    if sl >= 0 {
+        unsafe {
+            libc::close(sl);
+        }
+    }
+    for t in pty_threads {
+        let _ = t.join();
+    }
+    let tty_output = pty_out.lock().unwrap().clone();
     let stdout = out_thread.map(|t| t.join().unwrap_or_default()).unwrap_or_default();
     let stderr = String::from_utf8_lossy(&err_thread.join().unwrap_or_default()).to_string();
-    Out { code: status.code(), signal: status.signal(), timed_out, stdout, stderr, wall_ms: t0.elapsed().as_millis() }
+    Out { code: status.code(), signal: status.signal(), timed_out, stdout, stderr, wall_ms: t0.elapsed().as_millis(), tty_output }
 }
 
 /// Serialize one keyring entry in the documented format.
